@@ -116,6 +116,9 @@ def _parse_lists(out):
         return None
 
 
+TIMEOUT = "timeout"
+
+
 def run_cases(pid, case_terms, header="", shard=40, timeout=900):
     """case_terms: list of Coq terms of type `list nat`. Returns list of result lists (or None on failure)
     in the same order. Each shard is one .v file evaluated by one coqc process."""
@@ -142,20 +145,48 @@ def run_cases(pid, case_terms, header="", shard=40, timeout=900):
         try:
             rc, out = sh(f"ulimit -s unlimited 2>/dev/null; timeout {timeout} coqc -Q {COQ} CK {fn}", timeout=timeout + 30)
         except subprocess.TimeoutExpired:
-            return None, f"timeout {fn}"
+            return None, f"{fn} rc=124 (timeout)"
         if os.environ.get("VERIF_DEBUG"):
             print(f"  coqc {os.path.basename(fn)} rc={rc} {time.time() - t0:.1f}s", flush=True)
         return (_parse_lists(out) if rc == 0 else None), f"{fn} rc={rc} " + out[-2000:]
 
+    def write_one(k, j, t):
+        fn = os.path.join(wdir, f"cases_{k}_{j}.v")
+        with open(fn, "w") as f:
+            f.write("From Coq Require Import ZArith QArith Qcanon List.\nImport ListNotations.\n")
+            f.write("From CK Require Import Base Scalar Tensor Pexpr Exec Ops Checks RG Init Ctx Gen Fold FoldCheck PShapes.\n")
+            f.write(header + "\n")
+            f.write(f"Definition case_0 : list nat := {t}.\n")
+            f.write("Eval vm_compute in ([case_0] : list (list nat)).\n")
+        return fn
+
     results = []
     logs = []
     with ThreadPoolExecutor(max_workers=14) as ex:
-        for (res, log), terms in zip(ex.map(run, files), shards):
-            if res is None or len(res) != len(terms):
-                results.extend([None] * len(terms))
+        first = list(ex.map(run, files))
+        for k, ((res, log), terms) in enumerate(zip(first, shards)):
+            if res is not None and len(res) == len(terms):
+                results.extend(res)
+                continue
+            if "rc=124" in log and len(terms) > 1:
+                # the shard ran out of time (machine load, or one very large case): evaluate its cases one by one;
+                # a case that still does not finish is reported as TIMEOUT (an unevaluated sample, not a disagreement)
+                singles = [write_one(k, j, t) for j, t in enumerate(terms)]
+                for (r1, l1) in ex.map(run, singles):
+                    if r1 is not None and len(r1) == 1:
+                        results.append(r1[0])
+                    elif "rc=124" in l1:
+                        results.append(TIMEOUT)
+                        logs.append(l1)
+                    else:
+                        results.append(None)
+                        logs.append(l1)
+            elif "rc=124" in log:
+                results.append(TIMEOUT)
                 logs.append(log)
             else:
-                results.extend(res)
+                results.extend([None] * len(terms))
+                logs.append(log)
     return results, logs
 
 
